@@ -21,7 +21,10 @@ FORBIDDEN = (ast.Attribute, ast.Import, ast.ImportFrom, ast.Global, ast.Nonlocal
 HOSTILE = ["'); canary(); ('", '"\ncanary()\n"', "__import__('os')", '{canary()}', 'N{BULLET}', "x'+canary()+'", 'a"b',
            "'''", '"""', 'line1\nline2', 'tab\tx', '\r', 'é', '☃', '\U0001f600', 'a\x00b', ' ', '', '$CUTIF', '%d %s', '#', 'a#b\ncanary()',
            "\\", "a\\'); canary() #", 'canary', 'canary()', '__builtins__', 'ATOM_NIL', 'query', 'atom', 'eval', 'exec("canary()")',
-           ' canary()', '\x85canary()', '\x0ccanary()', "')]):\n  canary()\n  for _ in query('x',[atom('"]
+           ' canary()', '\x85canary()', '\x0ccanary()', "')]):\n  canary()\n  for _ in query('x',[atom('",
+           # templating / formatting metacharacters (a code generator that builds text with % or str.format)
+           '%(label)s', 'a%(label).1r+canary()+%(label).1rb', '%s', '%(name)s', '{0}', '{label}', '${label}', '%%', '%c',
+           'a%(label).1r+atom.__self__.x+%(label).1rb', '{0.__class__}', '%(x)r', '%(label)s%(label)s', 'x%(label).1ry']
 INTERNAL_MARKERS = ['$CUTIF']      # names the code generator uses internally (read off yp_generator.py)
 
 
@@ -164,9 +167,14 @@ class C12(Prop):
                 mk = src.pick(INTERNAL_MARKERS)
                 clauses.append(src.pick(['i :- %s(%s), r.', 'i :- r, %s(%s).', 'i :- (%s(%s) -> r ; s).', 'i :- %s(%s).']) % (q(mk), q(h)))
                 positions.append('internal-marker-as-goal')
-            elif k == 8:
+            elif k == 8 and src.n(2):
                 clauses.append('%s :- %s.' % (q(h), q(self.hostile(src))))
                 positions.append('head-name')
+            elif k == 8:
+                h2 = self.hostile(src)
+                clauses.append(src.pick(['t :- ( q(%s) -> r(%s) ; \\+ s(%s) ).', 't(X) :- \\+ X = %s, ( X = %s -> true ), r(%s).',
+                                         't :- r, ( %s(a) -> true ; %s ), \\+ \\+ q(%s).']) % (q(h), q(h2), q(h)))
+                positions.append('inside-if-then-else-and-negation')
             else:
                 clauses.append('z(%s, %s) :- %s = %s.' % (q(h), src.pick(['1', '007', 'X']), q(self.hostile(src)), q(h)))
                 positions.append('argument')
@@ -191,6 +199,19 @@ class C12(Prop):
             return OK(False, classes + ['refused(%s)' % type(e).__name__])
         detail = {'text': text}
         problems = analyse(code)
+        if not problems:
+            # source text reaches the output only as constants - and unchanged: every atom of the source is one of the
+            # string constants of the generated code
+            try:
+                want = {recog.unquote(t[1]) for t in recog.lex(text) if t[0] == 'STRING' and not re.search(r"\\(?!')", t[1][1:-1])}
+                tree = ast.parse(code)
+                have = {n.value for n in ast.walk(tree) if isinstance(n, ast.Constant) and isinstance(n.value, str)}
+                have |= {n.name.rsplit('_', 1)[0] for n in tree.body if isinstance(n, ast.FunctionDef)}      # clause-head names
+                missing = sorted(want - have)
+                if missing:
+                    problems = ['quoted atom %r of the source is not among the string constants of the output (text altered on the way)' % missing[0]]
+            except (recog.LexError, RecursionError):
+                pass
         if problems:
             detail['problems'] = problems[:6]
             detail['output'] = code[-1500:]
